@@ -408,6 +408,7 @@ func execRSA(p *Plan, run *core.Run) {
 		run.Fault("crash:players-down")
 	}
 	var sigShares []tssrsa.SignShare
+	var reusedShare tssrsa.SignShare
 	for _, h := range alive {
 		if h < 1 || h > p.N {
 			run.Bad("player index")
@@ -454,13 +455,20 @@ func execRSA(p *Plan, run *core.Run) {
 			run.Violate(comp+".SignShare.MarshalBinary", "error", "%v", err)
 			return
 		}
-		var rs tssrsa.SignShare
-		if err := rs.UnmarshalBinary(b); err != nil {
+		// the combiner decodes either into a fresh value per share or (odd seeds) through one
+		// variable that it reuses, appending a copy of the value each time
+		var fresh tssrsa.SignShare
+		rsp := &fresh
+		if p.Seed%2 == 1 {
+			rsp = &reusedShare
+			run.Fault("history:sign-share-variable-reused-for-decoding")
+		}
+		if err := rsp.UnmarshalBinary(b); err != nil {
 			run.Violate(comp+".SignShare.UnmarshalBinary", "rejects-own-encoding", "%v", err)
 			return
 		}
 		core.Recycle(b) // the receive buffer is reused for the next share
-		sigShares = append(sigShares, rs)
+		sigShares = append(sigShares, *rsp)
 	}
 	run.Tick(len(sigShares))
 	if len(sigShares) == 0 {
